@@ -9,7 +9,8 @@
    truncation inside the stored rows, a trim inside the log, the reopen of a channel
    whose entry was just reclaimed ...). *)
 EXTENDS MessageLog, Json
-CONSTANT Depth
+CONSTANTS Depth,
+          Focus   \* "log" (C07: truncation, retention, reopen) or "dup" (C08: collisions, reclaim, reopen)
 VARIABLE hist
 
 SimProbeIds   == SetToSortSeq(Ids, <)
@@ -37,8 +38,8 @@ SimStep ==
   \* ---- leases and database
   \/ \E c \in Pick(Chans) : OpenLease(c)
   \/ ShutCh # {} /\ \E c \in Pick(ShutCh) : OpenLease(c)
-  \/ RandomElement(1..3) = 1 /\ \E c \in Pick(Chans) : CloseLease(c)
-  \/ RandomElement(1..8) = 1 /\ CloseDB
+  \/ RandomElement(1..(IF Focus = "dup" THEN 2 ELSE 3)) = 1 /\ \E c \in Pick(Chans) : CloseLease(c)
+  \/ RandomElement(1..(IF Focus = "dup" THEN 5 ELSE 8)) = 1 /\ CloseDB
   \/ OpenDB
   \* ---- appends
   \/ OpenCh # {} /\ \E c \in Pick(OpenCh), m \in Pick(Modes) : DoAppend(c, m, 0, RandBatch)
@@ -54,6 +55,20 @@ SimStep ==
   \/ OpenCh # {} /\ Fresh # {} /\ \E c \in Pick(OpenCh) : Keyed(c) # {} /\ CleanRecs(c) # {} /\
         \E m \in Pick({"strict", "alloc"}), k \in Pick(Keyed(c)), id \in Pick(Fresh), r \in Pick(CleanRecs(c)) :
            DoAppend(c, m, 0, << r, [id |-> id, from |-> k.from, no |-> k.no, p |-> r.p] >>)
+  \/ Focus = "dup" /\ OpenCh # {} /\ Fresh # {} /\ \E c \in Pick(OpenCh) : Keyed(c) # {} /\
+        \E m \in Pick({"strict", "alloc"}), k \in Pick(Keyed(c)), id \in Pick(Fresh), p \in Pick(Pays) :
+           DoAppend(c, m, 0, Seq1([id |-> id, from |-> k.from, no |-> k.no, p |-> p]))
+  \/ Focus = "dup" /\ OpenCh # {} /\ Fresh # {} /\ \E c \in Pick(OpenCh) : Keyed(c) # {} /\
+        \E k \in Pick(Keyed(c)), id \in Pick(Fresh), p \in Pick(Pays) :
+           DoApply(c, "strict", 0, Seq1([id |-> id, from |-> k.from, no |-> k.no, p |-> p]), 0)
+  \* a keyed record arriving by a trusted apply / append (the filter must learn it)
+  \/ Focus = "dup" /\ OpenCh # {} /\ \E c \in Pick(OpenCh) :
+        LET K == {r \in CleanRecs(c) : HasKey(r)} IN K # {} /\
+        \E r \in Pick(K), viaApply \in Pick({TRUE, FALSE}) :
+           IF viaApply THEN DoApply(c, "trusted", 0, Seq1(r), 0) ELSE DoAppend(c, "trusted", 0, Seq1(r))
+  \* the empty payload (variant 9): rare, it is a reported finding on the typed surface
+  \/ RandomElement(1..30) = 1 /\ OpenCh # {} /\ \E c \in Pick(OpenCh) : CleanRecs(c) # {} /\
+        \E m \in Pick(Modes), r \in Pick(CleanRecs(c)) : DoAppend(c, m, 0, Seq1([r EXCEPT !.p = 9]))
   \* colliding id (strict mode), possibly stored in the other channel
   \/ OpenCh # {} /\ DOMAIN idIdx # {} /\ \E c \in Pick(OpenCh), id \in Pick(DOMAIN idIdx) :
         DoAppend(c, "strict", 0, Seq1([id |-> id, from |-> RandomElement(Froms), no |-> RandomElement(Nos), p |-> RandomElement(Pays)]))
